@@ -179,6 +179,11 @@ where
     W: Write + Send,
 {
     fn drop(&mut self) {
+        // a writer that is dropped before its turn (e.g. without ever being written to) must
+        // not release its successor ahead of the writers that precede it
+        if let Some(v) = self.trigger.take() {
+            v.recv().ok();
+        }
         self.on_finish.send(()).ok();
     }
 }
